@@ -102,21 +102,3 @@ fn c04_q_read_all_any_count() {
     kani::cover!(count == 0 && budget < 0);
     core::mem::forget(r);
 }
-
-/// C12: the chunk list reader reserves nothing from the declared chunk count / frame byte count
-#[kani::proof]
-#[kani::unwind(4)]
-#[kani::stub(alloc::fmt::format, crate::vklib::empty_format)]
-#[kani::stub(std::vec::Vec::with_capacity, crate::vklib::checking_with_capacity_nostop)]
-fn c12_q_read_all_declared_count() {
-    let count: u32 = kani::any();
-    let budget: i64 = kani::any();
-    let tail: [u8; 3] = kani::any();
-    unsafe {
-        crate::vklib::C12_INPUT_LEN = 19;
-    }
-    let mut reader = AseReader::with(&tail[..]);
-    let r = Chunk::read_all(count, budget, &mut reader);
-    kani::cover!(count == u32::MAX && budget == 0xffff_ffff);
-    core::mem::forget(r);
-}
